@@ -90,11 +90,22 @@ def unique_handle(chk, db, rule):
     if not cands:
         chk.unanalysable(rule, 'nop/types/handle.h', 'no UniqueHandle<DefaultHandlePolicy<int,...>> instance in the probes')
         return
-    q = cands[0]
+    _unique_handle_for(chk, db, rule, cands[0], None)
+    # ... and over the shipped file-descriptor policy (its own Close / Release; empty value -1): release() must hand the descriptor
+    # out still open
+    fcands = sorted(q for q, r in db.records.items() if r.get('rect') == 'nop::UniqueHandle' and q.endswith('<nop::FileHandlePolicy>'))
+    if not fcands:
+        chk.unanalysable(rule, 'nop/types/file_handle.h', 'no UniqueHandle<FileHandlePolicy> instance in the probes')
+        return
+    _unique_handle_for(chk, db, rule, fcands[0], -1)
+
+
+def _unique_handle_for(chk, db, rule, q, empty):
     fns = [f for f in db.fns if f.get('rec') == q]
     import re
     m = re.search(r'DefaultHandlePolicy<int, (-?\d+)>', q)
-    EMPTY = int(m.group(1)) if m else 0
+    EMPTY = empty if empty is not None else (int(m.group(1)) if m else 0)
+    file_policy = empty is not None
 
     def fresh_world(a, b):
         w = absx.World(db)
